@@ -578,6 +578,44 @@ func managerCase(c *fw.Ctx, s *section, r *fw.Rand, doc map[string]interface{}, 
 		c.Violation("C15/manager/section-missing/"+s.name, "section absent from the saved full configuration", string(raw))
 		return
 	}
+	// a Manager that does not have this section's component registered (another consensus,
+	// another datastore ...) keeps the section as the file has it when it saves
+	if s.typ != config.Cluster {
+		l := ls[r.Intn(len(ls))]
+		cs := candidates(r, l.path[len(l.path)-1], l.val)
+		cd := cs[r.Intn(len(cs))]
+		f := clone(full)
+		sec := locate(f)
+		setPath(sec, l.path, cd.v)
+		wantSec, _ := json.Marshal(sec)
+		fb, _ := json.MarshalIndent(f, "", " ")
+		p := filepath.Join(c.Dir, fmt.Sprintf("svc-partial-%d.json", c.CaseIdx()))
+		os.WriteFile(p, fb, 0o600)
+		m3 := config.NewManager()
+		for i := range sections {
+			o := &sections[i]
+			if o.name == s.name {
+				continue
+			}
+			m3.RegisterComponent(o.typ, o.newCfg())
+		}
+		if err := m3.LoadJSONFromFile(p); err == nil {
+			if out, err := m3.ToJSON(); err == nil {
+				var of map[string]interface{}
+				dd := json.NewDecoder(bytes.NewReader(out))
+				dd.UseNumber()
+				dd.Decode(&of)
+				gotSec, _ := json.Marshal(locate(of))
+				c.Eval("manager/unregistered-section-kept/" + s.name)
+				if string(gotSec) != string(wantSec) {
+					c.Violation("C15/manager/unregistered-section-changed/"+s.name, "a Manager without this section's component loaded a full file and saved it: the section is not what the file had",
+						map[string]interface{}{"file": json.RawMessage(wantSec), "saved": json.RawMessage(gotSec)})
+				}
+			}
+		}
+		m3.Shutdown()
+		os.Remove(p)
+	}
 	for n := 0; n < 12; n++ {
 		l := ls[r.Intn(len(ls))]
 		cs := candidates(r, l.path[len(l.path)-1], l.val)
